@@ -72,6 +72,100 @@ def field_mutation(draw: Any, frame: str) -> str:
     return frame[:46] + pl[:i] + v + pl[i + 2:]
 
 
+# --- synthetic traffic: entity-directed frames with extreme field values for every zone class / domain / device role ------
+PCT = ("00", "01", "64", "C8", "C9", "EF", "F0", "F1", "FA", "FF", "7F")
+TMP = ("0000", "07D0", "7FFF", "7EFF", "31FF", "8000", "FFFF", "0001")
+_SYN = (
+    " I --- {ctl} --:------ {ctl} 0005 004 00{cls}{m1}{m2}",
+    "RP --- {ctl} {gwy} --:------ 0005 004 00{cls}{m1}{m2}",
+    " I --- {ufc} {ctl} --:------ 3150 002 {zz}{pct}",
+    " I --- {ufc} --:------ {ufc} 3150 002 {u}{pct}",
+    " I --- {ufc} --:------ {ufc} 3150 004 {u}{pct}{u2}{pct2}",
+    " I --- {trv} --:------ {ctl} 3150 002 {zz}{pct}",
+    " I --- {ctl} --:------ {ctl} 3150 002 FC{pct}",
+    " I --- {ctl} --:------ {ctl} 0008 002 {dom}{pct}",
+    " I --- {ufc} --:------ {ufc} 0008 002 {u}{pct}",
+    " I --- {ctl} --:------ {ctl} 0009 003 {dom}{b}FF",
+    " I --- {ctl} --:------ {ctl} 30C9 006 {zz}{tmp}{zz2}{tmp2}",
+    " I --- {ctl} --:------ {ctl} 2309 006 {zz}{tmp}{zz2}{tmp2}",
+    "RP --- {ctl} {gwy} --:------ 30C9 003 {zz}{tmp}",
+    "RP --- {ctl} {gwy} --:------ 2309 003 {zz}{tmp}",
+    "RP --- {ctl} {gwy} --:------ 2349 007 {zz}{tmp}{mode}FFFFFF",
+    " I --- {ctl} --:------ {ctl} 2349 013 {zz}{tmp}04FFFFFF0A0D1E0C07E8",
+    "RP --- {ctl} {gwy} --:------ 12B0 003 {zz}{win}",
+    "RP --- {ctl} {gwy} --:------ 000A 006 {zz}{fl}{tmp}{tmp2}",
+    "RP --- {ctl} {gwy} --:------ 10A0 006 00{tmp}{b}{tmp2}",
+    "RP --- {ctl} {gwy} --:------ 1260 003 00{tmp}",
+    " I --- 07:045960 --:------ 07:045960 1260 003 00{tmp}",
+    "RP --- {ctl} {gwy} --:------ 1F41 006 00{b}{mode}FFFFFF",
+    " I --- {ctl} --:------ {ctl} 2E04 008 {smode}FFFFFFFFFFFF{b}",
+    " I --- {ctl} --:------ {ctl} 1F09 003 FF{cnt}",
+    " I --- {bdr} --:------ {bdr} 3EF0 003 00{pct}FF",
+    "RP --- {bdr} {gwy} --:------ 3EF1 007 00{cnt}{cnt}{pct}FF",
+    "RP --- {bdr} {gwy} --:------ 0008 002 00{pct}",
+    " I --- {bdr} --:------ {bdr} 3B00 002 00{pct}",
+    " I --- {ctl} --:------ {ctl} 3B00 002 FC{pct}",
+    "RP --- {otb} {gwy} --:------ 3EF0 006 00{pct}10{b}{b}FF",
+    "RP --- {otb} {gwy} --:------ 3220 005 00{ot}",
+    " I --- {ufc} --:------ {ufc} 22C9 006 {u}{tmp}{tmp2}01",
+    " I --- {ufc} --:------ {ufc} 000C 006 {u}09{b7}{zh}",
+    "RP --- {ctl} {gwy} --:------ 000C 006 {zz}{role}{b7}{devhex}",
+    " I --- {trv} --:------ {trv} 30C9 003 00{tmp}",
+    " I --- {trv} --:------ {ctl} 2309 003 {zz}{tmp}",
+    " I --- {trv} --:------ {ctl} 12B0 003 {zz}{win}",
+    " I --- {trv} --:------ {trv} 1060 003 00{pct}{b}",
+    " I --- {thm} --:------ {thm} 30C9 003 00{tmp}",
+    " I --- {thm} --:------ {ctl} 2309 003 {zz}{tmp}",
+    "RP --- {ctl} {gwy} --:------ 0004 022 {zz}00{name}",
+    " I --- {ctl} --:------ {ctl} 0418 022 00{ft}00{li}B00{dc}00000000{ts}FFFF7000{devhex}",
+)
+
+
+@st.composite
+def synthetic_frames(draw: Any, ctl: str, n: int) -> list[str]:
+    """n decodable frames from the templates above (library decode used only as a 'is a packet' precondition)."""
+    from datetime import datetime
+
+    from ramses_tx.message import Message
+    from ramses_tx.packet import Packet
+
+    hx2 = st.text("0123456789ABCDEF", min_size=2, max_size=2)
+    out: list[str] = []
+    for _ in range(n * 3):
+        if len(out) >= n:
+            break
+        t = draw(st.sampled_from(_SYN))
+        otid = draw(st.integers(0, 127))
+        otv = draw(st.sampled_from((0, 0xFFFF, 0x7FFF, 0x8000, 0x0100)))
+        b1 = draw(st.sampled_from((0x40, 0x70, 0x60, 0x50)))
+        if bin((b1 << 24) | (otid << 16) | otv).count("1") % 2:
+            b1 |= 0x80
+        f = t.format(
+            ctl=ctl, gwy="18:006402", ufc="02:001107", trv=f"04:0560{draw(st.integers(50, 59))}", thm="34:092243", bdr=f"13:04979{draw(st.integers(0, 9))}",
+            otb="10:048122", cls=draw(st.sampled_from(("08", "09", "0A", "0B", "11", "04", "00", "0D", "0F"))),
+            m1=draw(st.sampled_from(("00", "01", "0F", "FF", "08"))), m2=draw(st.sampled_from(("00", "0F", "08", "FF"))),
+            zz=f"{draw(st.integers(0, 11)):02X}", zz2=f"{draw(st.integers(0, 15)):02X}", u=f"{draw(st.integers(0, 7)):02X}", u2=f"{draw(st.integers(0, 7)):02X}",
+            pct=draw(st.one_of(st.sampled_from(PCT), hx2)), pct2=draw(st.sampled_from(PCT)), tmp=draw(st.sampled_from(TMP)), tmp2=draw(st.sampled_from(TMP)),
+            dom=draw(st.sampled_from(("00", "03", "0B", "F9", "FA", "FC"))), b=draw(st.sampled_from(("00", "01", "FF", "02"))), b7=draw(st.sampled_from(("00", "7F"))),
+            mode=draw(st.sampled_from(("00", "01", "02", "03", "04", "05"))), smode=draw(st.sampled_from(("00", "01", "02", "03", "04", "07"))),
+            win=draw(st.sampled_from(("0000", "C800", "FFFF", "7FFF", "0001"))), fl=draw(st.sampled_from(("00", "01", "02", "10", "FF"))),
+            cnt=draw(st.sampled_from(("0000", "0001", "0708", "7FFF", "FFFF"))), ot=f"{b1:02X}{otid:02X}{otv:04X}",
+            zh=draw(st.sampled_from(("00", "03", "0B", "7F"))), role=draw(st.sampled_from(("00", "04", "08", "09", "0A", "0B", "0D", "0E", "0F", "11"))),
+            devhex=draw(st.sampled_from(("10DAFD", "0D2E6B", "35F0B3", "FFFFFF", "000000", "04E5E6"))),
+            name=draw(st.sampled_from(("4B69746368656E" + "00" * 13, "7F" * 20, "00" * 20, "C3A9" + "00" * 18))),
+            ft=draw(st.sampled_from(("00", "40", "C0"))), li=f"{draw(st.integers(0, 0x3F)):02X}", dc=draw(st.sampled_from(("04", "01", "05", "06", "0A"))),
+            ts=draw(st.sampled_from(("CB955F71", "00000000", "FFFFFFFF", "7FFFFFFF"))),
+        )
+        ln = len(f[46:]) // 2
+        f = f[:42] + f"{ln:03d}" + f[45:]
+        try:
+            Message(Packet.from_port(datetime(2024, 3, 1, 12), f"045 {f}")).payload  # noqa: B018
+        except Exception:  # noqa: BLE001 - not a decodable packet: skip (C01/C05 own that)
+            continue
+        out.append(f)
+    return out
+
+
 @st.composite
 def history(draw: Any, max_len: int = 120, min_len: int = 10) -> dict:
     sysd = systems()
@@ -82,7 +176,7 @@ def history(draw: Any, max_len: int = 120, min_len: int = 10) -> dict:
     h = frames[start:start + n]
     muts = []
     for _ in range(draw(st.integers(0, 6))):
-        kind = draw(st.sampled_from(("delete", "duplicate", "swap", "move-block", "splice", "field", "field", "field")))
+        kind = draw(st.sampled_from(("delete", "duplicate", "swap", "move-block", "splice", "field", "field", "field", "synthetic", "synthetic")))
         if not h:
             break
         i = draw(st.integers(0, len(h) - 1))
@@ -106,6 +200,9 @@ def history(draw: Any, max_len: int = 120, min_len: int = 10) -> dict:
             h[i:i] = list(other[j:j + k])
         elif kind == "field":
             h[i] = draw(field_mutation(h[i]))
+        elif kind == "synthetic":  # entity-directed frames for this system's controller: every zone class / domain / role, extreme values
+            ctl = next((f[7:16] for f in h if f[7:9] == "01"), None) or next((f[17:26] for f in h if f[17:19] == "01"), "01:145038")
+            h[i:i] = draw(synthetic_frames(ctl, draw(st.integers(3, 25))))
         muts.append(kind)
     if draw(st.integers(0, 3)) == 0 and h:  # 'many-field': a good share of the packets carry an extreme field value
         share = draw(st.sampled_from((0.1, 0.3, 0.6)))
